@@ -149,10 +149,34 @@ func ruleBuildGuards(c *Ctx) {
 		why   string
 	}
 	guards := []guard{
-		{"unexported (lower-case) fields skipped", func(iff *ssa.If) (int, bool) {
+		{"unexported fields skipped (reflect's own test)", func(iff *ssa.If) (int, bool) {
+			// sf.IsExported() - skip on false - or sf.PkgPath != "" - skip on true. A test on the
+			// spelling of the name (first rune lower case) is not the language's rule: _x, _ and names
+			// starting with a caseless letter are unexported too.
 			if call, ok := iff.Cond.(*ssa.Call); ok {
-				if cal := call.Common().StaticCallee(); cal != nil && cal.String() == "unicode.IsLower" {
-					return 0, true
+				if cal := call.Common().StaticCallee(); cal != nil && cal.String() == "(reflect.StructField).IsExported" {
+					return 1, true
+				}
+			}
+			if cmp, ok := iff.Cond.(*ssa.BinOp); ok && (cmp.Op == token.EQL || cmp.Op == token.NEQ) {
+				isPkgPath := func(v ssa.Value) bool {
+					switch x := v.(type) {
+					case *ssa.Field:
+						if st, ok := x.X.Type().Underlying().(*types.Struct); ok {
+							return st.Field(x.Field).Name() == "PkgPath" && typeName(x.X.Type()) == "StructField"
+						}
+					case *ssa.UnOp:
+						if fa, ok := x.X.(*ssa.FieldAddr); ok {
+							return fieldName(fa) == "PkgPath"
+						}
+					}
+					return false
+				}
+				if (isPkgPath(cmp.X) && isConstString(cmp.Y, "")) || (isPkgPath(cmp.Y) && isConstString(cmp.X, "")) {
+					if cmp.Op == token.NEQ {
+						return 0, true
+					}
+					return 1, true
 				}
 			}
 			return 0, false
@@ -526,6 +550,10 @@ func init() {
 			ruleNoPanicInBuild(c)
 			ruleKind(c)
 			ruleSliceWrap(c)
+			ruleFixedWrap(c)
+			ruleRepeatedNesting(c)
+			ruleOptionRejected(c)
+			ruleReflectPre(c)
 		},
 	})
 }
